@@ -48,7 +48,7 @@ pub struct Case {
 	pub remap: bool,
 	/// the table goes through harness-written text and Nests::read
 	pub via_text: bool,
-	/// target names of the mappings: 0 plain, 1 some already nested with `__`
+	/// target names of the mappings: 0 plain, 1 some already nested with `__`, 2 some nested twice (`A__B__C`) or with `___`
 	pub dst_style: u8,
 }
 
@@ -70,7 +70,7 @@ fn strategy() -> impl Strategy<Value = Case> {
 			};
 			NestPlan { class, kind, encl, method, name_variant, access }
 		});
-	(proptest::collection::vec(class_stream(), 3..=POOL.len()), proptest::collection::vec(nest, 1..8), any::<bool>(), any::<bool>(), 0u8..2).prop_map(|(streams, nests, remap, via_text, dst_style)| Case { streams, nests, remap, via_text, dst_style })
+	(proptest::collection::vec(class_stream(), 3..=POOL.len()), proptest::collection::vec(nest, 1..8), any::<bool>(), any::<bool>(), 0u8..3).prop_map(|(streams, nests, remap, via_text, dst_style)| Case { streams, nests, remap, via_text, dst_style })
 }
 
 /// plain class renaming: members keep their names, descriptors follow the classes
@@ -273,7 +273,13 @@ fn strip_digits(s: &str) -> String {
 fn mappings_for(models: &[CClass], dst_style: u8) -> MapSet {
 	let mut set = MapSet { ns: vec!["official".into(), "named".into()], classes: BTreeMap::new() };
 	for (k, m) in models.iter().enumerate() {
-		let dst = if dst_style == 1 && k % 3 == 2 { format!("n/Named{}__In{k}", k - 1) } else { format!("n/Named{k}") };
+		// style 2: target names that are nested more than once (`A__B__C`: only the last `__` separates the inner name) and a triple underscore
+		let dst = match (dst_style, k % 3) {
+			(1, 2) => format!("n/Named{}__In{k}", k - 1),
+			(2, 2) => format!("n/Named{}__Mid{}__In{k}", k - 2, k - 1),
+			(2, 1) => format!("n/Named{}___In{k}", k - 1),
+			_ => format!("n/Named{k}"),
+		};
 		let mut c = MClass { names: vec![Some(m.name.clone()), Some(dst)], ..MClass::default() };
 		for f in &m.fields {
 			c.fields.insert(MemberKey::new(&f.name, &f.desc), MField { names: vec![Some(f.name.clone()), Some(format!("f_{}", f.name))], ..MField::default() });
